@@ -164,6 +164,9 @@ impl<T> Clone for Sender<T> {
 impl<T> Drop for Sender<T> {
     fn drop(&mut self) {
         if self.chan.senders.fetch_sub(1, Ordering::SeqCst) == 1 {
+            if !sim::in_execution() {
+                return; // engine gone (failed run / process exit): nobody to wake
+            }
             // last sender gone: receivers drain what is queued, then see Err
             if sim::current_task().is_some() && !std::thread::panicking() {
                 self.chan.items.close();
@@ -223,6 +226,9 @@ impl<T> Clone for Receiver<T> {
 impl<T> Drop for Receiver<T> {
     fn drop(&mut self) {
         if self.chan.receivers.fetch_sub(1, Ordering::SeqCst) == 1 {
+            if !sim::in_execution() {
+                return;
+            }
             let live = sim::current_task().is_some() && !std::thread::panicking();
             if live {
                 self.chan.slots.close();
